@@ -15,7 +15,7 @@ import (
 
 var c02Decl = &GenCfg{Depth: 2, Fanout: 2, MaxOpts: 4, MaxGroups: 2, NestGroups: 1, Kinds: AllKinds, Pos: true, PosPct: 20, Ns: true,
 	Req: 3, Choices: true, Defaults: true, OptArg: true, Initial: true, Bases: true, Unquote: true, Aliases: true, SubOpt: 50, NonASCII: true,
-	NsDelims: []string{"-", "::"}, ViaAdd: 4,
+	NsDelims: []string{"-", "::"}, ViaAdd: 4, StaticTwins: true,
 	ParserOpts: []flags.Options{flags.HelpFlag, flags.PassDoubleDash, flags.PassAfterNonOption, flags.IgnoreUnknown}}
 
 var c02Argv = &ArgvCfg{MaxItems: 2, WOpt: 50, WCluster: 8, WCmd: 4, WPlain: 10, WTerm: 2, WUnknown: 2, WJunk: 2, WRepeat: 10, BadVal: 3, Quote: 8}
